@@ -869,6 +869,14 @@ def mon_cancel(tr, pid='C09'):
             if sent_els > handed_before + sum(1 for e in pe if e['ev'] == 'hand' and e['seq'] > cancel_recv):
                 out.append(viol('payload_after_cancel', '%s:payload_after_cancel:%s:%s' % (pid, kind, dirn),
                                 sent=sent_els, handed_before_cancel=handed_before, **facts))
+            # whatever the publisher had pulled ahead and was still holding (a paced library source hands its backlog over
+            # one element at a time) is not emitted either: after the peer processed the CANCEL it decides to emit no
+            # further payload on this stream (decision time = the frame entering the send queue, not the write)
+            late_q = [e for e in log if e['ev'] == 'queued' and e['side'] == peer and e.get('sid') == sid and
+                      cancel_recv < e['seq'] < hi and e.get('ftype') == 'PayloadFrame']
+            if late_q:
+                out.append(viol('payload_after_cancel', '%s:payload_queued_after_cancel:%s:%s' % (pid, kind, dirn),
+                                n=len(late_q), **facts))
     return out
 
 
